@@ -41,6 +41,18 @@ fn first_line(content: &[u8]) -> (&[u8], &[u8]) {
     }
 }
 
+/// What may follow a frame's text on the wire: the documented CR LF, and everything near it.
+fn line_endings() -> Vec<Vec<u8>> {
+    let mut v: Vec<Vec<u8>> = vec![b"\r\n".to_vec(), b"\n".to_vec(), b"\r".to_vec(), b"\r\r\n".to_vec(), b"\n\n".to_vec(), b"\n\r\n".to_vec(), b"\r\n\n".to_vec()];
+    for stray in [b'0', b'F', b'X', b' ', b':', 0u8, 0xFF, b'\t', b'\r'] {
+        v.push(vec![stray, b'\n']);
+        v.push(vec![stray, b'\r', b'\n']);
+        v.push(vec![b'\r', stray, b'\n']);
+        v.push(vec![stray, stray, b'\n']);
+    }
+    v
+}
+
 fn rd_case(ctx: &mut Ctx, k: usize, content: &[u8], sched: &[String], class: &str) {
     let line = format!("RD {} {} {}", k, hex_of_bytes(content), sched.join(" "));
     let line = line.trim_end().to_string();
@@ -101,6 +113,17 @@ fn gen_c15(ctx: &mut Ctx) {
         (vec![], 1),
         (b":00".to_vec(), 1),
     ];
+    // a complete frame text followed by every kind of line ending and stray byte, then a frame: each read returns what
+    // decoding that first line alone gives
+    for term in line_endings() {
+        let mut v = enc(3, 2, &[0x55], false);
+        v.extend_from_slice(&term);
+        v.extend(f2.clone());
+        for sched in [vec![], vec!["D0".to_string(), "I".to_string(), "D2".to_string()]] {
+            rd_case(ctx, 1, &v, &sched, "line-endings");
+            rd_case(ctx, 2, &v, &sched, "line-endings");
+        }
+    }
     // exhaustive schedules over {D0, D2, I} up to length L for the short streams
     let maxl = if thorough { 7 } else { 5 };
     let evs = ["D0", "D2", "I", "D40"];
@@ -653,6 +676,20 @@ fn gen_c17(ctx: &mut Ctx) {
             v
         }, "three-lines"),
     ];
+    // a complete, checksum-correct frame text followed by every kind of line ending and stray byte, then a valid frame
+    for m in ["BYE", "HE.3", "RO.3.RCF"] {
+        let text = if m == "BYE" { enc(3, 2, &[0x55], false) } else { let mut v = enc_msg(m); v.truncate(v.len() - 2); v };
+        for term in line_endings() {
+            let mut v = text.clone();
+            v.extend_from_slice(&term);
+            if !v.ends_with(b"\n") {
+                continue;
+            }
+            let valid = crate::gen::reference_parse(first_line(&v).0).starts_with("OK ");
+            v.extend(enc_msg("QS.3"));
+            tapes.push((v, if valid { "valid-then-valid" } else { "invalid-then-valid" }));
+        }
+    }
     // a valid line in which the first digit of a pair (a '0') is replaced by a sign or a blank: "+0" is not a hex pair
     for m in ["RO.3.SRS", "HE.3", "SD.0.00010203"] {
         let good = enc_msg(m);
